@@ -54,7 +54,7 @@ def h_spatial(ctx, rank, N, F, topo):
 
 
 # ---------------------------------------------------------------- gaussian blurring
-def h_blur(ctx, d, ngrids, rank, F=1, N=2, free=3):
+def h_blur(ctx, d, ngrids, rank, F=1, N=2, free=3, moving=False):
     ctx.covers(FUNCS[1], FUNCS[3])
     cg = ctx.repo("PyMatterSim.utils.coarse_graining")
     ru = ctx.repo("PyMatterSim.reader.reader_utils")
@@ -68,7 +68,13 @@ def h_blur(ctx, d, ngrids, rank, F=1, N=2, free=3):
     cut = ctx.real("cut", positive=True)
     pi_ = O.pi(ctx)
     snaps, poss = [], []
+    lo0 = lo
+    # moving=True: the box origin is different in every frame (shifted bounds, same edge lengths): each frame's grid must
+    # span that frame's own bounds
+    sh = [ctx.real(f"shift{a}") for a in range(d)] if moving else [0] * d
+    lo_f = [[lo0[a] + f * sh[a] for a in range(d)] for f in range(F)]
     for f in range(F):
+        lo = lo_f[f]
         prow = [[ctx.real(f"p{f}_{a}") for a in range(d)], [lo[a] + L[a] * C.const(ctx, Fraction(1, 3)) for a in range(d)]][:N]
         poss.append(prow)
         snaps.append(C.snapshot(ctx, ru, f, [1] * N, C.farr(ctx, prow), rows, lo=lo))
@@ -76,11 +82,14 @@ def h_blur(ctx, d, ngrids, rank, F=1, N=2, free=3):
     shape = {0: (F, N), 1: (F, N, d)}[rank]
     cond = ctx.array("A", shape)
     G = int(np.prod(ngrids))
-    axes0 = [[(lo[a] + (L[a] * Fraction(k, ngrids[a] - 1) if sym else L[a] * k / (ngrids[a] - 1))) if ngrids[a] > 1 else lo[a]
-              for k in range(ngrids[a])] for a in range(d)]
+    def axes_of(f):
+        lo = lo_f[f]
+        return [[(lo[a] + (L[a] * Fraction(k, ngrids[a] - 1) if sym else L[a] * k / (ngrids[a] - 1))) if ngrids[a] > 1 else lo[a]
+                 for k in range(ngrids[a])] for a in range(d)]
     # the cut-off test is left free for the first `free` grid points (one solver-decided fork per particle and point);
     # the remaining points are assumed inside the cut-off so that the number of paths stays bounded
     for f in range(F):
+        axes0 = axes_of(f)
         for flat, idx in enumerate(product(*[range(n) for n in ngrids])):
             if flat >= free:
                 for i in range(N):
@@ -90,9 +99,8 @@ def h_blur(ctx, d, ngrids, rank, F=1, N=2, free=3):
     ctx.oblige("grid size", tuple(gpos.shape) == (F, G, d))
     ctx.output("gpos", gpos)
     ctx.output("gval", gval)
-    axes = [[(lo[a] + (L[a] * Fraction(k, ngrids[a] - 1) if sym else L[a] * k / (ngrids[a] - 1))) if ngrids[a] > 1 else lo[a]
-             for k in range(ngrids[a])] for a in range(d)]
     for f in range(F):
+        axes = axes_of(f)
         for flat, idx in enumerate(product(*[range(n) for n in ngrids])):        # x slowest
             pt = [axes[a][idx[a]] for a in range(d)]
             for a in range(d):
@@ -332,6 +340,7 @@ def cfg_blur(tier, seed):
     out.append(dict(d=2, ngrids=[2, 3], rank=1, N=1))
     out.append(dict(d=3, ngrids=[2, 2, 3], rank=0, N=1))
     out.append(dict(d=3, ngrids=[1, 3, 2], rank=0, N=1))
+    out.append(dict(d=2, ngrids=[2, 2], rank=0, F=2, N=1, free=1, moving=True))      # second frame with a shifted box origin
     if tier == "thorough":
         out.append(dict(d=3, ngrids=[2, 3, 2], rank=1, N=1))
         out.append(dict(d=2, ngrids=[4, 2], rank=0, F=2, N=1))
